@@ -273,6 +273,40 @@ def numeric_search(pc: Sequence[T], goal: Optional[T], vars_: Sequence[T], rng: 
     return None
 
 
+# ------------------------------------------------------------------------------ abstraction
+
+
+def abstract(ts: Sequence[T], limit: int = 10) -> List[T]:
+    """Replace every large non-linear subterm by a fresh variable, consistently (the same term
+    gets the same variable).  Sound for proving: fresh variables are unconstrained, so unsat
+    of the abstraction implies unsat of the original (DESIGN §2.2 item 2)."""
+    size: Dict[int, int] = {}
+    out: Dict[int, T] = {}
+    facts: List[T] = []
+    order = sorted(tm.subterms(ts), key=lambda x: x.id)
+    for x in order:
+        kids = [a for a in x.args if isinstance(a, T)]
+        size[x.id] = 1 + sum(size[k.id] for k in kids)
+    for x in order:
+        kids = [a for a in x.args if isinstance(a, T)]
+        nonlinear = (
+            (x.op == "mul" and sum(1 for k in kids if not tm.is_const(k)) >= 2)
+            or (x.op == "div" and not tm.is_const(x.args[1]))
+            or x.op in ("powi", "fn")
+        )
+        if nonlinear and size[x.id] > limit:
+            v = tm.var(f"abs!{x.id}", x.sort)
+            out[x.id] = v
+            if (x.op == "mul" and len(x.args) == 2 and x.args[0] is x.args[1]) or (x.op == "powi" and x.args[1] % 2 == 0):
+                facts.append(tm.le(tm.const(0), v))  # a square
+            continue
+        if not kids or all(out[k.id] is k for k in kids):
+            out[x.id] = x
+        else:
+            out[x.id] = tm.mk(x.op, tuple(out[a.id] if isinstance(a, T) else a for a in x.args), x.sort)
+    return [out[t.id] for t in ts], facts
+
+
 # ------------------------------------------------------------------------------ portfolio
 
 
@@ -327,7 +361,16 @@ def discharge(pc: Tuple[T, ...], goal: T, timeout_s: float, poly_backend=None) -
                 return done("proved", "ideal-sympy", text=why)
         except tm.Unsupported as e:
             res["text"] = f"poly: {e}"
-    # 2. SMT
+    # 2. SMT on the abstraction (big non-linear subterms → fresh variables)
+    try:
+        ab, facts = abstract(list(pc) + [goal])
+        if any(a is not b for a, b in zip(ab, list(pc) + [goal])):
+            r, info, dt = z3_check(ab[:-1] + facts, ab[-1], int(min(timeout_s, 6.0) * 1000), want_model=False)
+            if r == "unsat":
+                return done("proved", "smt-z3-abstraction")
+    except tm.Unsupported:
+        pass
+    # 3. SMT on the full VC
     try:
         r, info, dt = z3_check(pc, goal, int(timeout_s * 1000))
     except tm.Unsupported as e:
